@@ -327,7 +327,7 @@ fn c04(cx: &Ctx, o: &mut Outcome) {
         let mut f = sc_conn.faults.clone();
         f.handler_err = false;
         // a fault of the disk seam hit this connection: what it owes is "no panic", like under a transport fault
-        let disk_hit = c.fired.iter().any(|x| x.starts_with("disk_"));
+        let disk_hit = c.fired.iter().any(|x| x.starts_with("disk_") || x == "dup_err");
         let entitled = sc_conn.strict_delivery() && f.is_clean() && !sc_conn.request.0.is_empty() && !disk_hit;
         let cause = |cited: &mut Vec<usize>| -> (String, String) {
             match r.panics.iter().position(|p| p.conn == Some(i)) {
@@ -656,7 +656,7 @@ fn c06(cx: &Ctx, o: &mut Outcome) {
             let mut which = None;
             for (i, c) in r.conns.iter().enumerate() {
                 for f in &c.fired {
-                    if f.starts_with("accept_err") || f == "local_addr_err" || f == "peer_addr_err" {
+                    if f.starts_with("accept_err") || f == "local_addr_err" || f == "peer_addr_err" || f == "dup_err" {
                         cause = f.split(':').next().unwrap_or(f).to_string();
                         which = Some(i);
                     }
